@@ -137,11 +137,20 @@ func (f *FragmentBuffer) pushHandshakeFragments(
 		frag.data = bytes.Clone(buf[handshake.HeaderLength:end])
 		frag.recordLayerHeader = recordLayerHeader
 
-		if _, ok = messageFragments.fragmentByOffset[frag.handshakeHeader.FragmentOffset]; !ok {
+		// Of two fragments that start at the same offset the longer one is kept:
+		// an empty or shorter fragment must not shadow the bytes behind it.
+		stored, ok := messageFragments.fragmentByOffset[frag.handshakeHeader.FragmentOffset]
+		switch {
+		case !ok:
 			messageFragments.fragmentByOffset[frag.handshakeHeader.FragmentOffset] = frag
 			messageFragments.fragmentsLength += frag.handshakeHeader.FragmentLength
 			f.totalBufferSize += int(frag.handshakeHeader.FragmentLength)
 			f.totalFragmentCount++
+		case frag.handshakeHeader.FragmentLength > stored.handshakeHeader.FragmentLength:
+			grown := frag.handshakeHeader.FragmentLength - stored.handshakeHeader.FragmentLength
+			messageFragments.fragmentByOffset[frag.handshakeHeader.FragmentOffset] = frag
+			messageFragments.fragmentsLength += grown
+			f.totalBufferSize += int(grown)
 		}
 		buf = buf[end:]
 	}
@@ -156,19 +165,32 @@ func (f *FragmentBuffer) Pop() (content []byte, epoch uint16) {
 		return nil, 0
 	}
 
-	if frags.fragmentsLength != frags.handshakeLength {
+	if frags.fragmentsLength < frags.handshakeLength {
 		return nil, 0
 	}
 
-	var rawMessage []byte
-	targetOffset := uint32(0)
-	for i := 0; i < len(frags.fragmentByOffset) && targetOffset < frags.handshakeLength; i++ {
-		if frag, ok := frags.fragmentByOffset[targetOffset]; ok {
-			rawMessage = append(rawMessage, frag.data...)
-			targetOffset = frag.handshakeHeader.FragmentOffset + frag.handshakeHeader.FragmentLength
-		} else {
+	// Fragment ranges may overlap (a retransmission cut for a smaller MTU,
+	// RFC 6347 section 4.2.3): the message is complete when the stored
+	// fragments cover every byte from 0 to its length.
+	rawMessage := make([]byte, 0, frags.handshakeLength)
+	for uint32(len(rawMessage)) < frags.handshakeLength { //nolint:gosec // G115
+		covered := uint32(len(rawMessage)) //nolint:gosec // G115
+		var next *fragment
+		for _, frag := range frags.fragmentByOffset {
+			start := frag.handshakeHeader.FragmentOffset
+			if start <= covered && start+frag.handshakeHeader.FragmentLength > covered &&
+				(next == nil || start > next.handshakeHeader.FragmentOffset) {
+				next = frag
+			}
+		}
+		if next == nil {
 			return nil, 0
 		}
+		skip := int(covered - next.handshakeHeader.FragmentOffset)
+		if skip >= len(next.data) {
+			return nil, 0
+		}
+		rawMessage = append(rawMessage, next.data[skip:]...)
 	}
 
 	if int(frags.handshakeLength) != len(rawMessage) {
